@@ -43,5 +43,21 @@ CHECKS["C02"] = dict(
     legs=[dict(name="sessions", test="^TestSessions$", quick=dict(n=400, procs=4, timeout=300), thorough=dict(n=40000, procs=14, timeout=2400))],
 )
 
+CHECKS["C16"] = dict(
+    level="exploration",
+    technique="differential property testing (rapid) of emitter's MQTT codec against paho.mqtt.golang/packets from a neutral packet description; "
+              "native go fuzzing of the decoder against paho in the thorough tier",
+    level_text="For generated packet values of all 14 types (flag combinations, QoS incl. will QoS, message ids, string/payload lengths aimed at the "
+               "remaining-length boundaries 0/127/128/16383/16384/..64KiB) emitter's bytes are decoded by paho, paho's bytes by emitter, emitter's by "
+               "emitter; all field maps must equal the description, both byte strings must be identical and the remaining length must match an independent encoder.",
+    level_note="Trusted: paho.mqtt.golang v1.5.0 packets as the independent MQTT 3.1.1 implementation (its known leniencies are filtered: only well-formed "
+               "packets, topic filters >=1 char), the neutral description and field maps in the harness.",
+    rule="rapid-generated packet descriptions; non-trivial = remaining length needs >=2 bytes or any non-default flag/QoS/return code; distinct = distinct description.",
+    assumptions=["packets whose total size exceeds the 64 KiB encoder buffer are out of scope (counted as excluded)"],
+    legs=[dict(name="differential", test="^TestCodecDifferential$", quick=dict(n=20000, procs=4, timeout=300), thorough=dict(n=1500000, procs=12, timeout=2400)),
+          dict(name="fuzz-seeds", test="^FuzzDecode$", kind="plain", quick=dict(n=1, procs=1, timeout=120), thorough=dict(n=1, procs=1, timeout=120)),
+          dict(name="fuzz-decode", kind="fuzz", fuzz="FuzzDecode", thorough=dict(fuzztime=240, workers=8))],
+)
+
 for _k in CHECKS:
     NOT_APPLICABLE.pop(_k, None)
